@@ -299,9 +299,29 @@ pub fn notify(reason: Reason) {
     }
 }
 
+/// Message of the panic that ends a thread which is still going round
+/// inside the code under test long after the run was cut short (a loop that
+/// makes no system call, so poisoned system calls cannot end it).
+pub const SPIN_AFTER_ABORT: &str = "a10verif: still looping after the scheduled run was aborted";
+const SPIN_LIMIT: u32 = 2_000_000;
+
+thread_local! {
+    static POINTS_AFTER_ABORT: std::cell::Cell<u32> = const { std::cell::Cell::new(0) };
+}
+
 fn point_fn(p: a10::verif::Point, addr: usize) {
     if ACTIVE.load(Ordering::Relaxed) {
         yield_point(Kind::A10(p), addr);
+    } else {
+        // A count, not a clock: two million hook points after the abort.
+        let n = POINTS_AFTER_ABORT.with(|c| {
+            c.set(c.get() + 1);
+            c.get()
+        });
+        if n > SPIN_LIMIT && !std::thread::panicking() {
+            POINTS_AFTER_ABORT.with(|c| c.set(0));
+            panic!("{SPIN_AFTER_ABORT}");
+        }
     }
 }
 
@@ -376,6 +396,7 @@ pub fn run_policy(policy: Policy, budget: usize, record: bool, threads: Vec<Box<
     for (tid, f) in threads.into_iter().enumerate() {
         handles.push(std::thread::spawn(move || {
             TID.with(|t| t.set(tid));
+            POINTS_AFTER_ABORT.with(|c| c.set(0));
             // Wait for the baton.
             {
                 let mut guard = lock();
@@ -410,6 +431,7 @@ pub fn run_policy(policy: Policy, budget: usize, record: bool, threads: Vec<Box<
     let mut panics = Vec::new();
     for h in handles {
         match h.join() {
+            Ok(Some(p)) if p.contains(SPIN_AFTER_ABORT) => {}
             Ok(Some(p)) => panics.push(p),
             Ok(None) => {}
             Err(_) => panics.push("thread panicked outside catch".into()),
